@@ -208,6 +208,10 @@ func (mt *MarkdownTable) emitRow(
 		barRight = "|"
 		barCenter = "|"
 	}
+	if max == 0 {
+		// no cells at all: open the row, every column is then an "extra"
+		barLeft = "|"
+	}
 	if _, err := io.WriteString(w, barLeft); err != nil {
 		return err
 	}
@@ -216,10 +220,12 @@ func (mt *MarkdownTable) emitRow(
 			return err
 		}
 	}
-	if _, err := fmt.Fprint(w, mt.mdPaddedCellEscape(cells, widths, alignments, i), barRight); err != nil {
-		return err
+	if max > 0 {
+		if _, err := fmt.Fprint(w, mt.mdPaddedCellEscape(cells, widths, alignments, i), barRight); err != nil {
+			return err
+		}
+		i++
 	}
-	i++
 	for ; i < columnCount; i++ {
 		// these are the extra columns, always have one whitespace before bar
 		if _, err := io.WriteString(w, " |"); err != nil {
